@@ -15,6 +15,22 @@
 (*                  table local instead of assigning it to the model;      *)
 (*   RefreshParams  (commit 29f9c0e7) the poor-fit disqualification is     *)
 (*                  written to the snapshot that to_json serialises.       *)
+(* Four more switches are HAZARDS: ways in which hidden state could be     *)
+(* shared, each observed in a seeded change (DESIGN section 9.2b), none in  *)
+(* the current tree:                                                       *)
+(*   OwnScalers     a restored model owns its scalers (off: from_dict      *)
+(*                  writes into class-level scaler objects);               *)
+(*   CopyOnHandOut  predict hands out a fresh frame (off: predict on the   *)
+(*                  object the model was fitted on returns the cached      *)
+(*                  baseline prediction itself);                           *)
+(*   KeyedMemo      what a fit computes depends on its own inputs (off: a  *)
+(*                  process-wide memo keyed too coarsely is filled by the  *)
+(*                  first fit and read by every later one);                *)
+(*   RejectKeeps    a rejected fit leaves the model as it was (off: it     *)
+(*                  resets the model's disqualification list first).       *)
+(* For each hazard TLC returns the SHORTEST history that exposes it; these *)
+(* histories are the rare sequence features the replay cover must contain  *)
+(* (engine/life.py RARE) - the I-layer is where they come from.            *)
 (* With all three TRUE (the current tree) every theorem below holds; with  *)
 (* any one FALSE TLC returns a minimal history violating the theorem(s)    *)
 (* named in Expect.  The checks run all four configurations               *)
@@ -23,7 +39,8 @@
 (* rejects the same histories under the P-layer clause of the same name.   *)
 (***************************************************************************)
 EXTENDS Integers, FiniteSets, Sequences, TLC
-CONSTANTS Slots, CopyLists, LocalClusters, RefreshParams, MaxCalls
+CONSTANTS Slots, CopyLists, LocalClusters, RefreshParams, MaxCalls,
+          OwnScalers, CopyOnHandOut, KeyedMemo, RejectKeeps
 None == "none"
 Baselines == {"good", "poor", "short"}     \* "poor": fit is poor; "short": the data object carries a sufficiency disqualification
 Reports   == {"week", "year"}
@@ -31,56 +48,87 @@ Combos    == [week |-> {"c1"}, year |-> {"c1", "c2", "c3"}]      \* (month, week
 AllCombos == {"c1", "c2", "c3"}
 DataCell(b) == "L_" \o b
 ModelCell(s) == "M_" \o s
-Cells == {DataCell(b) : b \in Baselines} \cup {ModelCell(s) : s \in Slots}
+ScalerCell(s) == "S_" \o s
+CacheCell(s) == "F_" \o s
+Cells == {DataCell(b) : b \in Baselines} \cup {ModelCell(s) : s \in Slots} \cup {ScalerCell(s) : s \in Slots} \cup {CacheCell(s) : s \in Slots}
+         \cup {"S_class", "MEMO", "U"}      \* class-level scaler objects, a process-wide memo, a frame copy owned by the caller
 VARIABLES heap,     \* [Cells -> set of dq names]: the python list objects
           model,    \* [Slots -> [st, base, dq (a cell or None), pdq (snapshot that is serialised), clusters]]
           store,    \* sequence of documents [base, dq]
           last,     \* observation of the last call
+          held,     \* the cell behind the frame the caller received last (None: none)
           ncalls
-vars == <<heap, model, store, last, ncalls>>
-NoModel == [st |-> "new", base |-> None, dq |-> None, pdq |-> {}, clusters |-> {}]
+vars == <<heap, model, store, last, held, ncalls>>
+NoModel == [st |-> "new", base |-> None, dq |-> None, pdq |-> {}, clusters |-> {}, scaler |-> None, stats |-> None, cache |-> None]
+\* two documents written by an earlier process: a qualified and a poor-fit model
+Doc(b, dq) == [base |-> b, dq |-> dq, scaler |-> {b}, stats |-> b]
 Init == /\ heap = [c \in Cells |-> IF c = DataCell("short") THEN {"length"} ELSE {}]
         /\ model = [s \in Slots |-> NoModel]
-        /\ store = <<>> /\ last = [op |-> "init"] /\ ncalls = 0
+        /\ store = <<Doc("good", {}), Doc("poor", {"poorfit"})>> /\ last = [op |-> "init"] /\ held = None /\ ncalls = 0
 Tick == ncalls < MaxCalls /\ ncalls' = ncalls + 1
 
 Fit(s, b, ign) ==
-  /\ Tick
+  /\ Tick /\ held' = held
   /\ IF heap[DataCell(b)] # {} /\ ~ign
-     THEN last' = [op |-> "fit", s |-> s, b |-> b, out |-> "DataSufficiencyError"] /\ UNCHANGED <<heap, model, store>>
+     THEN /\ last' = [op |-> "fit", s |-> s, b |-> b, out |-> "DataSufficiencyError"] /\ UNCHANGED <<model, store>>
+          /\ heap' = IF RejectKeeps \/ model[s].dq = None THEN heap ELSE [heap EXCEPT ![model[s].dq] = {}]
      ELSE LET cell == IF CopyLists THEN ModelCell(s) ELSE DataCell(b)      \* self.disqualification = (copy of) baseline_data.disqualification
               h1   == IF CopyLists THEN [heap EXCEPT ![cell] = heap[DataCell(b)]] ELSE heap
               snap == h1[cell]                                               \* params.info.disqualification, taken inside _fit
               h2   == IF b = "poor" THEN [h1 EXCEPT ![cell] = @ \cup {"poorfit"}] ELSE h1      \* .append(cvrmse_warning) after _fit
-          IN /\ heap' = h2
+              memo == IF h2["MEMO"] = {} THEN {b} ELSE h2["MEMO"]            \* filled by the first fit of the process
+              stat == IF KeyedMemo THEN b ELSE CHOOSE x \in memo : TRUE
+              h3   == [h2 EXCEPT !["MEMO"] = memo, ![ScalerCell(s)] = {b}, ![CacheCell(s)] = {b}]      \* the fit path clones its scalers
+          IN /\ heap' = h3
              /\ model' = [model EXCEPT ![s] = [st |-> "fitted", base |-> b, dq |-> cell,
-                                               pdq |-> IF RefreshParams THEN h2[cell] ELSE snap, clusters |-> AllCombos]]
+                                               pdq |-> IF RefreshParams THEN h2[cell] ELSE snap, clusters |-> AllCombos,
+                                               scaler |-> ScalerCell(s), stats |-> stat, cache |-> CacheCell(s)]]
              /\ last' = [op |-> "fit", s |-> s, b |-> b, out |-> "ok"] /\ UNCHANGED store
 
 Predict(s, r, ign) ==
   /\ Tick /\ model[s].st = "fitted"
   /\ IF heap[model[s].dq] # {} /\ ~ign
-     THEN last' = [op |-> "predict", s |-> s, r |-> r, ign |-> ign, out |-> "DisqualifiedModelError"] /\ UNCHANGED <<heap, model, store>>
-     ELSE \* the value depends on which (month, weekday) cells still have a fitted cluster; the table is re-indexed to the report
-          /\ last' = [op |-> "predict", s |-> s, r |-> r, ign |-> ign, out |-> "ok", val |-> <<model[s].base, r, Combos[r] \cap model[s].clusters>>]
+     THEN last' = [op |-> "predict", s |-> s, r |-> r, ign |-> ign, out |-> "DisqualifiedModelError"] /\ UNCHANGED <<heap, model, store, held>>
+     ELSE \* the value depends on which (month, weekday) cells still have a fitted cluster and on the scaler contents; the table is re-indexed to the report
+          /\ last' = [op |-> "predict", s |-> s, r |-> r, ign |-> ign, out |-> "ok", val |-> <<model[s].base, r, Combos[r] \cap model[s].clusters>>,
+                       scaled |-> heap[model[s].scaler]]
           /\ model' = IF LocalClusters THEN model ELSE [model EXCEPT ![s].clusters = Combos[r]]
-          /\ UNCHANGED <<heap, store>>
+          /\ UNCHANGED <<heap, store, held>>
+
+\* predict on the very data object the model was fitted on (models fitted in this process keep that prediction)
+PredictOwn(s, ign) ==
+  /\ Tick /\ model[s].st = "fitted" /\ model[s].cache # None
+  /\ IF heap[model[s].dq] # {} /\ ~ign
+     THEN last' = [op |-> "predictown", s |-> s, ign |-> ign, out |-> "DisqualifiedModelError"] /\ UNCHANGED <<heap, model, store, held>>
+     ELSE /\ last' = [op |-> "predictown", s |-> s, ign |-> ign, out |-> "ok", frame |-> heap[model[s].cache]]
+          /\ IF CopyOnHandOut THEN held' = "U" /\ heap' = [heap EXCEPT !["U"] = heap[model[s].cache]]
+                               ELSE held' = model[s].cache /\ heap' = heap
+          /\ UNCHANGED <<model, store>>
+
+\* the caller overwrites the frame it received
+Scribble == /\ Tick /\ held # None
+            /\ heap' = [heap EXCEPT ![held] = {"scribbled"}]
+            /\ last' = [op |-> "scribble"] /\ UNCHANGED <<model, store, held>>
 
 Save(s) ==
   /\ Tick /\ model[s].st = "fitted"
-  /\ store' = Append(store, [base |-> model[s].base, dq |-> model[s].pdq])
-  /\ last' = [op |-> "save", s |-> s] /\ UNCHANGED <<heap, model>>
+  /\ store' = Append(store, [base |-> model[s].base, dq |-> model[s].pdq, scaler |-> heap[model[s].scaler], stats |-> model[s].stats])
+  /\ last' = [op |-> "save", s |-> s] /\ UNCHANGED <<heap, model, held>>
 
 Load(s, k) ==
   /\ Tick /\ k \in 1..Len(store) /\ model[s].st = "new"
-  /\ heap' = [heap EXCEPT ![ModelCell(s)] = store[k].dq]
-  /\ model' = [model EXCEPT ![s] = [st |-> "fitted", base |-> store[k].base, dq |-> ModelCell(s), pdq |-> store[k].dq, clusters |-> AllCombos]]
-  /\ last' = [op |-> "load", s |-> s, k |-> k] /\ UNCHANGED store
+  /\ LET sc == IF OwnScalers THEN ScalerCell(s) ELSE "S_class" IN
+     /\ heap' = [heap EXCEPT ![ModelCell(s)] = store[k].dq, ![sc] = store[k].scaler]
+     /\ model' = [model EXCEPT ![s] = [st |-> "fitted", base |-> store[k].base, dq |-> ModelCell(s), pdq |-> store[k].dq, clusters |-> AllCombos,
+                                       scaler |-> sc, stats |-> store[k].stats, cache |-> None]]
+  /\ last' = [op |-> "load", s |-> s, k |-> k] /\ UNCHANGED <<store, held>>
 
 Next == \/ \E s \in Slots, b \in Baselines, ign \in BOOLEAN : Fit(s, b, ign)
         \/ \E s \in Slots, r \in Reports, ign \in BOOLEAN : Predict(s, r, ign)
         \/ \E s \in Slots : Save(s)
         \/ \E s \in Slots, k \in 1..Len(store) : Load(s, k)
+        \/ \E s \in Slots, ign \in BOOLEAN : PredictOwn(s, ign)
+        \/ Scribble
 Spec == Init /\ [][Next]_vars
 
 ----------------------------------------------------------------------------
@@ -89,6 +137,14 @@ Spec == Init /\ [][Next]_vars
 DataImmutable == [][ \A b \in Baselines : heap'[DataCell(b)] = heap[DataCell(b)] ]_vars
 \* [PredictPure] predict changes nothing
 PredictPure   == [][ last'.op = "predict" => (model' = model /\ heap' = heap /\ store' = store) ]_vars
+\* [PredSameAfterReload] a restored model scales with the values of its OWN document, whatever else was restored since
+RestoredModelsIndependent == (last.op = "predict" /\ last.out = "ok") => last.scaled = {model[last.s].base}
+\* [ReserialisesToSameDocument] ... and writes them back
+ResavedScalerIsOwn == \A s \in Slots : (last.op = "save" /\ last.s = s) => store[Len(store)].scaler = {model[s].base}
+\* [HandedOutFramesAreCopies / PredSameAcrossHistory] what the caller does to a returned frame never shows in a later prediction
+HandOutsAreCopies == (last.op = "predictown" /\ last.out = "ok") => last.frame = {model[last.s].base}
+\* [FitJsonSameAcrossFits / ReportedStatisticsAreThoseOfTheLastFit] what a fit reports depends on its own data only
+FitDependsOnItsOwnData == \A s \in Slots : model[s].st = "fitted" => model[s].stats = model[s].base
 \* [FitReturnsOrDataSufficiencyError] fit raises exactly when the DATA carries a disqualification (never because of an earlier fit)
 FitRepeatable == (last.op = "fit" /\ last.out = "DataSufficiencyError") => last.b = "short"
 \* [PredSameAcrossHistory] a prediction does not depend on earlier predictions: all cells of the report have a fitted cluster
